@@ -280,6 +280,9 @@ structure DstCfg where
   minRec : Nat
   maxRec : Nat
   maxTime : Nat
+  /-- `true` = the current code (3012c3c): `crashed_nodes()` / `recovering_nodes()` are sorted by
+      node id; `false` = the pinned code: map iteration order -/
+  sortedNodes : Bool := true
   deriving Repr
 
 structure Dst (σ : Type) where
@@ -291,6 +294,19 @@ structure Dst (σ : Type) where
   ops : Nat := 0
 
 def bits_0_1 : Nat := 0x3FB999999999999A
+
+/-- `nodes.sort_by_key(|id| id.0)` -/
+def insNat (x : Nat) : List Nat → List Nat
+  | [] => [x]
+  | y :: ys => if x ≤ y then x :: y :: ys else y :: insNat x ys
+
+def sortNat (l : List Nat) : List Nat := l.foldr insNat []
+
+/-- `CrashSimulator::crashed_nodes()`: the crashed ones among the node ids in map order `order`,
+    sorted by id in the current code -/
+def crashedNodes (sorted : Bool) (order : List Nat) (nodes : List NState) : List Nat :=
+  let l := order.filter fun i => (nodes.getD i .running).isCrashed
+  if sorted then sortNat l else l
 
 section
 variable {σ : Type} (S : Sampler σ)
@@ -333,7 +349,7 @@ def crashLoop (c : DstCfg) (d : Dst σ) : Except String (Dst σ) :=
 /-- `for node in crashed_nodes() { if gen_bool(0.1) { start_recovery(node) } }` — `order` is the
     iteration order of the map; the list of crashed nodes is taken once, before the loop -/
 def recoverLoop (c : DstCfg) (order : List Nat) (d : Dst σ) : Except String (Dst σ) :=
-  (order.filter fun i => (d.nodes.getD i .running).isCrashed).foldlM (fun d i => do
+  (crashedNodes c.sortedNodes order d.nodes).foldlM (fun d i => do
     let (b, g) ← S.bool bits_0_1 d.g
     if b then
       let (dur, g) ← S.range c.minRec c.maxRec g
@@ -349,6 +365,43 @@ def dstStep (c : DstCfg) (pi : List Nat) (d : Dst σ) : Except String (Dst σ) :
   let d ← crashLoop S c d
   let d ← recoverLoop S c pi d
   pure { d with ops := d.ops + 1 }
+
+end
+
+/-! ## the thread-local BUGGIFY context and the store-based harnesses (WAL / streaming / compaction)
+
+`SimulatedWalStore` / `SimulatedObjectStore` decide every fault through
+`should_buggify_with_prob`, which returns false WITHOUT drawing while the thread's context is
+disabled.  In the pinned code the harnesses use whatever context an earlier run left behind; in
+the current code (474577c) they install `FaultConfig::new()` (enabled) themselves. -/
+
+structure BugCtx where
+  enabled : Bool := true
+  deriving DecidableEq, Repr
+
+section
+variable {σ : Type} (S : Sampler σ)
+
+/-- `buggify!(rng, id, prob)` under a thread context -/
+def storeDecision (ctx : BugCtx) (prob : Nat) (g : σ) : Except String (Bool × σ) :=
+  if !ctx.enabled then pure (false, g)
+  else do
+    let (v, g) ← S.range 0 1000000 g
+    pure (SimKernel.buggifyTriggered v (SimKernel.clamp01 (F64.ofBits prob)), g)
+
+/-- the context a store-based harness runs under, given what an earlier run left on the thread -/
+def harnessCtx (installsOwn : Bool) (prev : BugCtx) : BugCtx := if installsOwn then {} else prev
+
+/-- a store-based harness run, abstractly: any computation `body` of the context it sees and the
+    generator (its fault decisions are `storeDecision ctx …`) -/
+def storeHarnessRun {α : Type} (installsOwn : Bool) (prev : BugCtx) (body : BugCtx → σ → α) (g : σ) : α :=
+  body (harnessCtx installsOwn prev) g
+
+/-- a concrete body: the outcomes of a fixed sequence of fault sites -/
+def faultSites (probs : List Nat) (ctx : BugCtx) (g : σ) : Except String (List Bool × σ) :=
+  probs.foldlM (fun (acc : List Bool × σ) p => do
+    let (b, g) ← storeDecision S ctx p acc.2
+    pure (acc.1 ++ [b], g)) ([], g)
 
 end
 
@@ -377,9 +430,9 @@ def runDst (seed ops : Nat) (c : DstCfg) (pi : List Nat) : String :=
 def run (harness : String) (seed ops : Nat) (cfg : List Nat) : Option String :=
   if harness == "dst" then
     match cfg with
-    | n :: prob :: en :: skew :: sr :: dr :: minR :: maxR :: maxT :: pi =>
+    | n :: prob :: en :: skew :: sr :: dr :: minR :: maxR :: maxT :: sorted :: pi =>
       if pi.length == n then
-        some (runDst seed ops ⟨n, prob, en == 1, skew == 1, sr, dr, minR, maxR, maxT⟩ pi)
+        some (runDst seed ops ⟨n, prob, en == 1, skew == 1, sr, dr, minR, maxR, maxT, sorted == 1⟩ pi)
       else none
     | _ => none
   else
